@@ -162,3 +162,91 @@ def text(tree, token):
         else:
             out.append(token(x) + count_text(c))
     return "".join(out)
+
+
+# ------------------------------------------------------------------ independent counting, nested groups
+from fractions import Fraction
+
+
+def totals(tree, scale=Fraction(1), out=None):
+    """The check's own atom counter: {item: Fraction} for a tree of [count, item] / [multiplier, subtree].
+    The total of an item is the sum over its leaves of (leaf count x the multipliers of ALL enclosing
+    groups), in exact rational arithmetic (Fraction(float) is exact).  Order of first occurrence."""
+    if out is None:
+        out = {}
+    for c, x in tree:
+        if isinstance(x, (list, tuple)):
+            totals(x, scale * Fraction(c), out)
+        else:
+            out[x] = out.get(x, Fraction(0)) + scale * Fraction(c)
+    return out
+
+
+def exact_float(q):
+    """float(q) for a Fraction that is a float (the alphabets are chosen so that every total is)."""
+    x = float(q)
+    if Fraction(x) != q:
+        raise ValueError("%r is not a binary floating-point number" % (q,))
+    return x
+
+
+def depth(tree):
+    d = 0
+    for c, x in tree:
+        if isinstance(x, (list, tuple)):
+            d = max(d, 1 + depth(x))
+    return d
+
+
+def nestings(seq, mults=(1, 2, 3, 0.5), depth=2, singletons=True):
+    """Every bracketing of the leaves `seq` = [(item, count), ...] (kept in this order, counts kept as
+    they are - the totals are whatever the multipliers make of them): a forest is a sequence of nodes, a
+    node is a leaf [count, item] or a group [m, forest] with m in `mults`; groups are nested at most
+    `depth` deep.  With singletons a group may hold a single leaf, `(X2)3`, or nothing but another group,
+    `((...)3)2`; without, every group holds at least two nodes (the trees that n*(f + g) can build).
+    Yields trees (sub-trees are shared between
+    the yielded trees: do not alter them)."""
+    memo = {}
+    seq = list(seq)
+
+    def forests(i, j, d, inner):
+        # forests over seq[i:j] with groups nested <= d deep; inner: the forest is the content of a group
+        key = (i, j, d, inner)
+        if key not in memo:
+            memo[key] = list(_forests(i, j, d, inner))
+        return memo[key]
+
+    def nodes(i, j, d):
+        if j - i == 1:
+            yield [seq[i][1], seq[i][0]]
+        if d > 0:
+            for m in mults:
+                for sub in forests(i, j, d - 1, True):
+                    yield [m, sub]
+
+    def _forests(i, j, d, inner):
+        for cut in range(i + 1, j + 1):
+            for head in nodes(i, cut, d):
+                if cut == j:
+                    if singletons or not inner:
+                        yield [head]
+                else:
+                    for rest in forests(cut, j, d, False):
+                        yield [head] + rest
+
+    return _top(seq, nodes, depth)
+
+
+def _top(seq, nodes, d):
+    # the top level is generated lazily (it is the large one), everything below it is memoised
+    n = len(seq)
+
+    def walk(i):
+        for cut in range(i + 1, n + 1):
+            for head in nodes(i, cut, d):
+                if cut == n:
+                    yield [head]
+                else:
+                    for rest in walk(cut):
+                        yield [head] + rest
+    return walk(0)
